@@ -147,3 +147,177 @@ func SpecColorForward(g2r, g2b, r2b uint8, p uint32) uint32 {
 	nb := int32(uint8(p)) - specDelta(int8(g2b), green) - specDelta(int8(r2b), red)
 	return (p & 0xff00ff00) | uint32(nr&0xff)<<16 | uint32(nb&0xff)
 }
+
+// ---- RFC 6386 section 14: inverse transforms (reference: vp8_short_idct4x4llm_c,
+// vp8_short_inv_walsh4x4_c with the constants 20091 and 35468) ----
+
+func specMulC1(a int) int { return a + ((a * 20091) >> 16) } // a * sqrt(2)*cos(pi/8)
+func specMulC2(a int) int { return (a * 35468) >> 16 }       // a * sqrt(2)*sin(pi/8)
+
+func specClip255(v int) uint8 {
+	if v < 0 {
+		return 0
+	}
+	if v > 255 {
+		return 255
+	}
+	return uint8(v)
+}
+
+// specIDCTColumn: vertical pass, output row k (0..3) of column i.
+func specIDCTColumn(in []int16, i, k int) int {
+	a := int(in[i]) + int(in[8+i])
+	b := int(in[i]) - int(in[8+i])
+	c := specMulC2(int(in[4+i])) - specMulC1(int(in[12+i]))
+	d := specMulC1(int(in[4+i])) + specMulC2(int(in[12+i]))
+	switch k {
+	case 0:
+		return a + d
+	case 1:
+		return b + c
+	case 2:
+		return b - c
+	}
+	return a - d
+}
+
+// SpecIDCTPixel: pixel (r, c) of the 4x4 block after adding the inverse DCT
+// of the 16 coefficients `in` to the prediction `pred` (stride 32), rounded
+// with +4 >> 3 and clamped to 0..255.
+func SpecIDCTPixel(in []int16, pred []byte, r, c int) uint8 {
+	t0 := specIDCTColumn(in, 0, r)
+	t1 := specIDCTColumn(in, 1, r)
+	t2 := specIDCTColumn(in, 2, r)
+	t3 := specIDCTColumn(in, 3, r)
+	a := t0 + t2
+	b := t0 - t2
+	cc := specMulC2(t1) - specMulC1(t3)
+	d := specMulC1(t1) + specMulC2(t3)
+	var v int
+	switch c {
+	case 0:
+		v = a + d
+	case 1:
+		v = b + cc
+	case 2:
+		v = b - cc
+	default:
+		v = a - d
+	}
+	return specClip255(int(pred[r*32+c]) + ((v + 4) >> 3))
+}
+
+// SpecWHT: inverse Walsh-Hadamard transform, output (r, c) of the 4x4 DC block.
+func SpecWHT(in []int16, r, c int) int16 {
+	col := func(i, k int) int {
+		a0 := int(in[i]) + int(in[12+i])
+		a1 := int(in[4+i]) + int(in[8+i])
+		a2 := int(in[4+i]) - int(in[8+i])
+		a3 := int(in[i]) - int(in[12+i])
+		switch k {
+		case 0:
+			return a0 + a1
+		case 1:
+			return a3 + a2
+		case 2:
+			return a0 - a1
+		}
+		return a3 - a2
+	}
+	t0, t1, t2, t3 := col(0, r), col(1, r), col(2, r), col(3, r)
+	a0 := t0 + t3
+	a1 := t1 + t2
+	a2 := t1 - t2
+	a3 := t0 - t3
+	var v int
+	switch c {
+	case 0:
+		v = a0 + a1
+	case 1:
+		v = a3 + a2
+	case 2:
+		v = a0 - a1
+	default:
+		v = a3 - a2
+	}
+	return int16((v + 3) >> 3)
+}
+
+// ---- RFC 6386 section 15: loop filter arithmetic, in the RFC's signed domain ----
+
+func specClampInt(v, lo, hi int) int {
+	if v < lo {
+		return lo
+	}
+	if v > hi {
+		return hi
+	}
+	return v
+}
+
+func specC(v int) int   { return specClampInt(v, -128, 127) } // c(): clamp to int8
+func specU2S(p int) int { return p - 128 }                      // u2s()
+func specS2U(v int) int { return specC(v) + 128 }               // s2u()
+
+func specAbsInt(v int) int {
+	if v < 0 {
+		return -v
+	}
+	return v
+}
+
+// specCommonAdjust: RFC 6386 section 15.2 common_adjust(); returns the new
+// P0, Q0 and the value `a` the sub-block filter re-uses.
+func specCommonAdjust(useOuterTaps bool, p1, p0, q0, q1 int) (np0, nq0, ra int) {
+	a := 3 * (specU2S(q0) - specU2S(p0))
+	if useOuterTaps {
+		a += specC(specU2S(p1) - specU2S(q1))
+	}
+	a = specC(a)
+	b := specC(a+3) >> 3
+	a = specC(a+4) >> 3
+	return specS2U(specU2S(p0) + b), specS2U(specU2S(q0) - a), a
+}
+
+// SpecSimpleFilterP0/Q0: section 15.2 simple_segment (filter always applied here;
+// the threshold test is specSimpleThreshold).
+func SpecSimpleFilterP0(p1, p0, q0, q1 int) int { r, _, _ := specCommonAdjust(true, p1, p0, q0, q1); return r }
+func SpecSimpleFilterQ0(p1, p0, q0, q1 int) int { _, r, _ := specCommonAdjust(true, p1, p0, q0, q1); return r }
+
+// SpecSimpleThreshold: (|p0-q0|*2 + |p1-q1|/2) <= edge_limit, written as libwebp
+// evaluates it: 4*|p0-q0| + |p1-q1| <= 2*edge_limit + 1.
+func SpecSimpleThreshold(p1, p0, q0, q1, thresh2 int) bool {
+	return 4*specAbsInt(p0-q0)+specAbsInt(p1-q1) <= thresh2
+}
+
+// SpecHev: section 15.3 hev(): high edge variance.
+func SpecHev(p1, p0, q0, q1, thresh int) bool {
+	return specAbsInt(p1-p0) > thresh || specAbsInt(q1-q0) > thresh
+}
+
+// SpecNormalThreshold: section 15.3 normal filter threshold test (filter_yes).
+func SpecNormalThreshold(p3, p2, p1, p0, q0, q1, q2, q3, thresh2, ithresh int) bool {
+	return SpecSimpleThreshold(p1, p0, q0, q1, thresh2) &&
+		specAbsInt(p3-p2) <= ithresh && specAbsInt(p2-p1) <= ithresh && specAbsInt(p1-p0) <= ithresh &&
+		specAbsInt(q3-q2) <= ithresh && specAbsInt(q2-q1) <= ithresh && specAbsInt(q1-q0) <= ithresh
+}
+
+// SpecSubblockFilter: section 15.3 subblock_filter() for hev == false:
+// returns the new P1, P0, Q0, Q1.
+func SpecSubblockFilter(p1, p0, q0, q1 int) (np1, np0, nq0, nq1 int) {
+	np0, nq0, a := specCommonAdjust(false, p1, p0, q0, q1)
+	a = (a + 1) >> 1
+	return specS2U(specU2S(p1) + a), np0, nq0, specS2U(specU2S(q1) - a)
+}
+
+// SpecMBFilter: section 15.3 MB_filter() for hev == false: new P2..Q2.
+func SpecMBFilter(p2, p1, p0, q0, q1, q2 int) (np2, np1, np0, nq0, nq1, nq2 int) {
+	w := specC(specC(specU2S(p1)-specU2S(q1)) + 3*(specU2S(q0)-specU2S(p0)))
+	a := specC((27*w + 63) >> 7)
+	np0, nq0 = specS2U(specU2S(p0)+a), specS2U(specU2S(q0)-a)
+	a = specC((18*w + 63) >> 7)
+	np1, nq1 = specS2U(specU2S(p1)+a), specS2U(specU2S(q1)-a)
+	a = specC((9*w + 63) >> 7)
+	np2, nq2 = specS2U(specU2S(p2)+a), specS2U(specU2S(q2)-a)
+	return
+}
